@@ -28,6 +28,29 @@ theorem load_roundtrip :
          a.keyType != k ||
          (loadPkcs8With b a d == .ok a && loadDerWith b a d == .ok a))))) = true := by decide
 
+/-- **a loaded key exports PKCS#8, and that export loads again**: for every back end and every
+    document it loads — whatever the encoding it came in (PKCS#8 v1/v2, SEC1, PKCS#1), through
+    the auto-detecting or the explicit-algorithm entry points — what `serialize_der` /
+    `serialize_pem` hand out is a PKCS#8 document of the same key type, which every entry
+    point, the PKCS#8-only ones included, loads again as the same algorithm -/
+theorem loaded_export_roundtrip :
+    allBackends.all (fun b => allDocs.all (fun d => (publicAlgs b).all (fun a =>
+      let loaded : Option SigAlg :=
+        match loadDerWith b a d with
+        | .ok x => some x
+        | _ => none
+      let auto : Option SigAlg :=
+        match autodetect b d with
+        | .ok x => some x
+        | _ => none
+      let e : KeyDoc := ⟨exportOfLoaded b d, d.kty⟩
+      (loaded.isNone ||
+        (e.wrapper == .pkcs8 && loadPkcs8With b a e == .ok a && loadDerWith b a e == .ok a &&
+         autodetect b e == .ok d.kty.defaultAlg)) &&
+      (auto.isNone ||
+        (e.wrapper == .pkcs8 && autodetect b e == autodetect b d &&
+         loadPkcs8With b d.kty.defaultAlg e == .ok d.kty.defaultAlg))))) = true := by decide
+
 /-- every document some parser of the back end accepts is auto-detected as its own key type,
     never as another one (the cascade order cannot mis-type a key) -/
 theorem autodetect_types_correctly :
@@ -83,5 +106,9 @@ theorem spki_algid_rfc (a : SigAlg) : encode (spkiAlgIdent a) = Spec.rfcSpkiAlgI
 /-! non-vacuity: a mismatched pair that is refused, a matching one that loads -/
 example : loadPkcs8With .ring .ecdsaP256 ⟨.pkcs8v1, .p384⟩ = .err .keyRejected := by decide
 example : autodetect .aws ⟨.sec1, .p521⟩ = .ok .ecdsaP521 := by decide
+-- a SEC1 key loaded by aws-lc-rs is handed out as PKCS#8, which the PKCS#8-only entry point loads
+example : exportOfLoaded .aws ⟨.sec1, .p384⟩ = .pkcs8v1 ∧
+    loadPkcs8With .aws .ecdsaP384 ⟨.sec1, .p384⟩ = .err .keyRejected ∧
+    loadPkcs8With .aws .ecdsaP384 ⟨exportOfLoaded .aws ⟨.sec1, .p384⟩, .p384⟩ = .ok .ecdsaP384 := by decide
 
 end Rcgen.Theorems.C11
